@@ -109,6 +109,31 @@ PROPS["C12"] = {
     "units": [U("TestVerif_C12_Store", "./pkg/publicrpc", R(2500), R(15000, shards=16, timeout=1200))],
 }
 
+def extract_contracts(work):
+    """pre-step of the cross-language checks: contracts/extract.py on the current tree -> VERIF_CONTRACTS"""
+    import subprocess
+    out = os.path.join(work, "contracts.json")
+    r = subprocess.run([sys.executable, os.path.join(vdriver.VERIF, "contracts", "extract.py"), vdriver.REPO, out], capture_output=True, text=True)
+    if r.returncode != 0:
+        raise vdriver.Undecided("contract source refactored beyond the extractor: %s" % (r.stderr.strip() or r.stdout.strip()))
+    os.environ["VERIF_CONTRACTS"] = out
+
+PLAIN = {"checks": 0, "shards": 1, "timeout": 600}
+PROPS["C07"] = {
+    "rule": "exhaustive n = 0..255: CalculateQuorum(n) == floor(2n/3)+1 == the expression extracted from Messages.sol quorum() == the "
+            "quorumSize expression extracted from governance.ral, BFT inequalities for n >= 1; behaviourally the interpreted Ralph "
+            "parseAndVerifyVAA and the Solidity verification semantics accept q but not q-1 valid signatures (subset of n in quick, all n in "
+            "thorough); histories of the processor whose every published VAA must be accepted by both contract verifiers; sampled n up to 1e6; "
+            "non-trivial = n >= 1 (table rows) / a published VAA (histories)",
+    "exhaustive": True,
+    "assumptions": ["contract side = interpreter of formulas/functions extracted from the contract sources of the current tree (no Solidity/Ralph compiler offline)",
+                    "explorer-backend evaluates the cached node module's CalculateQuorum; checked under C19"],
+    "pre": extract_contracts,
+    "units": [U("TestVerif_C07_Table", PROC, PLAIN, PLAIN, kind="plain"),
+              U("TestVerif_C07_ContractsAccept", PROC, R(800), R(6000, shards=16, timeout=1200)),
+              U("TestVerif_C07_LargeN", PROC, R(20000), R(500000, shards=4, timeout=600))],
+}
+
 def setup():
     """MANIFEST.setup_cmd: create stubs and warm the build cache for every harness binary."""
     work = os.path.join(vdriver.WORKROOT, "setup-%d" % os.getpid())
